@@ -334,8 +334,8 @@ fn main() {
             (1, quarters.clone(), 7, 5),
             (2, base.clone(), 6, 4),
             (2, fine.clone(), 4, 3),
-            (2, quarters.clone(), 5, 3),
-            (3, base.clone(), 4, 3),
+            (2, quarters.clone(), 6, 3),
+            (3, base.clone(), 5, 3),
             (3, vec![-1.0, 0.0, 0.25, 0.5, 0.75, 1.0], 4, 3),
             (4, vec![-1.0, 0.0, 0.5, 1.0], 3, 3),
         ],
